@@ -11,6 +11,8 @@ import (
 	"strings"
 	"time"
 
+	"k8s.io/apimachinery/pkg/api/resource"
+
 	"github.com/dapr/kit/config"
 	"github.com/dapr/kit/metadata"
 	"github.com/dapr/kit/streams"
@@ -455,6 +457,70 @@ func registerMeta() {
 		}
 		return errClass(config.Decode(build(v), resultFor(a["target"])))
 	})
+	register("metadata-hookfield", "metadata.DecodeMetadata(map[string]string{\"f\": v}, &struct{F T}) for one field type T", func(a map[string]string) (string, string) {
+		in := map[string]string{"f": string(unhx(a["v"]))}
+		var err error
+		switch a["t"] {
+		case "duration":
+			var t struct {
+				F time.Duration `mapstructure:"f"`
+			}
+			err = metadata.DecodeMetadata(in, &t)
+		case "durationptr":
+			var t struct {
+				F *time.Duration `mapstructure:"f"`
+			}
+			err = metadata.DecodeMetadata(in, &t)
+		case "kitDuration":
+			var t struct {
+				F metadata.Duration `mapstructure:"f"`
+			}
+			err = metadata.DecodeMetadata(in, &t)
+		case "durationSlice":
+			var t struct {
+				F []time.Duration `mapstructure:"f"`
+			}
+			err = metadata.DecodeMetadata(in, &t)
+		case "durationSlicePtr":
+			var t struct {
+				F *[]time.Duration `mapstructure:"f"`
+			}
+			err = metadata.DecodeMetadata(in, &t)
+		case "bool":
+			var t struct {
+				F bool `mapstructure:"f"`
+			}
+			err = metadata.DecodeMetadata(in, &t)
+		case "boolPtr":
+			var t struct {
+				F *bool `mapstructure:"f"`
+			}
+			err = metadata.DecodeMetadata(in, &t)
+		case "stringSlice":
+			var t struct {
+				F []string `mapstructure:"f"`
+			}
+			err = metadata.DecodeMetadata(in, &t)
+		case "stringSlicePtr":
+			var t struct {
+				F *[]string `mapstructure:"f"`
+			}
+			err = metadata.DecodeMetadata(in, &t)
+		case "byteSize":
+			var t struct {
+				F metadata.ByteSize `mapstructure:"f"`
+			}
+			err = metadata.DecodeMetadata(in, &t)
+		case "byteSizePtr":
+			var t struct {
+				F *metadata.ByteSize `mapstructure:"f"`
+			}
+			err = metadata.DecodeMetadata(in, &t)
+		default:
+			return clsSkip, ""
+		}
+		return errClass(err)
+	})
 	register("config-decodestring-ptr", "config.decodeString(f, t, data) for a pointer-typed data (reflect prefix)", func(a map[string]string) (string, string) {
 		v, ok := parseVS(a["in"])
 		if !ok {
@@ -676,6 +742,18 @@ func genMeta(r *runner) {
 		r.do(mk("config-normalize", "in", js(anyVal(4))))
 		r.res.Hit("config:input-kind:" + t)
 	}
+	// the decode-hook chain against its Lean model, one field type at a time; the results of the opaque
+	// parsers (time.ParseDuration, strconv.ParseInt, resource.ParseQuantity) are computed here and passed as oracles
+	hookTypes := []string{"duration", "durationptr", "kitDuration", "durationSlice", "durationSlicePtr", "bool", "boolPtr", "stringSlice", "stringSlicePtr", "byteSize", "byteSizePtr"}
+	hookVals := append([]string{}, metaStrings...)
+	for i := 0; i < r.n(400); i++ {
+		hookVals = append(hookVals, string(mutate(r.rnd, []byte(metaStrings[r.rnd.Intn(len(metaStrings))]), []byte("0123456789smhnuµ,. -+KMGiE\x00"))))
+	}
+	for _, ht := range hookTypes {
+		for _, v := range hookVals {
+			r.doM(hookLine(ht, v), mk("metadata-hookfield", "t", ht, "v", hx([]byte(v))))
+		}
+	}
 	// Duration JSON, ISO strings, byte sizes
 	for _, s := range []string{``, `null`, `1`, `1.5`, `1e30`, `-1e30`, `"1s"`, `"abc"`, `""`, `[]`, `{}`, `true`, `"1h`, `1e999`, `"9223372036854775807ns"`, `-0`, `"1s"`, ` "1s" `, `NaN`} {
 		r.do(mk("metadata-duration-json", "data", hx([]byte(s))))
@@ -789,4 +867,43 @@ func rvOf(x any) (string, bool) {
 		return "leaf:other", true
 	}
 	return rec(reflect.ValueOf(x), 0)
+}
+
+func hookLine(ht, v string) string {
+	bit := func(ok bool) string {
+		if ok {
+			return "1"
+		}
+		return "0"
+	}
+	durOK := func(x string) (bool, bool) {
+		_, e1 := time.ParseDuration(x)
+		_, e2 := strconv.ParseInt(x, 10, 0)
+		return e1 == nil, e2 == nil
+	}
+	t := ht
+	empty, pd, pi, q := v == "", false, false, false
+	switch ht {
+	case "duration", "durationptr", "kitDuration":
+		if ht == "durationptr" {
+			t = "duration"
+		}
+		pd, pi = durOK(v)
+	case "durationSlice", "durationSlicePtr":
+		pd = true
+		for _, part := range strings.Split(v, ",") {
+			part = strings.TrimSpace(part)
+			if part == "" {
+				continue
+			}
+			a, b := durOK(part)
+			if !a && !b {
+				pd = false
+			}
+		}
+	case "byteSize", "byteSizePtr":
+		_, err := resource.ParseQuantity(v)
+		q = err == nil
+	}
+	return "hook f=string t=" + t + " empty=" + bit(empty) + " pd=" + bit(pd) + " pi=" + bit(pi) + " cast=1 q=" + bit(q)
 }
